@@ -363,6 +363,7 @@ func checkC14(c *Ctx) {
 	lockRules(c, owners, map[string]int{"L1": 4, "L2": 1})
 	condRules(c, owners, map[string]int{"W1": 1, "W2": 1, "W2b": 1, "W3": 1, "W4": 2, "W6": 1})
 	ruleV1(c)
+	ruleV3(c)
 	ruleG2(c)
 	ruleL4(c, owners, 3)
 }
@@ -429,6 +430,7 @@ func checkC18(c *Ctx) {
 	ruleD1In(c, map[string]bool{"dt": true}, 5, "set.go")
 	ruleD6c(c)
 	ruleD6d(c)
+	ruleD6e(c)
 	ruleQ67(c)
 	ruleQ34(c, 3)
 }
